@@ -186,6 +186,13 @@ impl ZerokitMerkleTree for PmTree {
         values: I,
     ) -> Result<()> {
         let v = values.into_iter().collect::<Vec<_>>();
+        if start + v.len() > self.capacity() {
+            return Err(Report::msg("provided range exceeds set size"));
+        }
+        if v.is_empty() {
+            // nothing to write: in particular the number of leaves set does not move to `start`
+            return Ok(());
+        }
         self.tree
             .set_range(start, v.clone().into_iter())
             .map_err(|e| Report::msg(e.to_string()))?;
